@@ -52,3 +52,8 @@ PROP = dict(
         "no I/O error while writing or reading (the background writer only logs flush errors)",
     ],
 )
+
+# GoLite (DESIGN.md section 10a)
+PROP["technique"] += " + the entry codec (OffsetAndSizeAndSlot.Bytes, uvarintReader.ReadUvarint/ReadByte, Bitmap.Get/Set, encodeUvarint) translated on every run (GoLite) and proved equal to the model's entry_enc / rd_uv / uvarint"
+PROP["level_text"] += "; the linked-log entry codec functions are translated from the Go source on every run and proved to be the model's entry_enc / rd_uv / uvarint, with encoding/binary's uvarint functions as an oracle equal to Codec.uvarint (C06_translated_* theorems)"
+PROP["trusted"] = ['translator gen/golite.go (Go leaf functions -> terms of the GoLite fragment, re-run on every check) and the semantics coq/GoLite.v (fixed-width wrap-around, panics on bad index / slice / shift / division, fuel for loops and calls; capacity identified with length; out-parameters for slices written through; aliasing of two arguments not detected) - DESIGN.md section 10a; exercised by the vm_compute examples of the property file'] + list(PROP.get("trusted", []))
